@@ -1806,10 +1806,12 @@ async def async_select_or_reject(
     lookup_attr: bool,
 ) -> "t.AsyncIterator[V]":
     if value:
-        func = prepare_select_or_reject(context, args, kwargs, modfunc, lookup_attr)
+        # The test may be a coroutine function in async mode. Await its
+        # result before the select/reject modifier looks at it.
+        func = prepare_select_or_reject(context, args, kwargs, lambda x: x, lookup_attr)
 
         async for item in auto_aiter(value):
-            if func(item):
+            if modfunc(await auto_await(func(item))):
                 yield item
 
 
